@@ -113,7 +113,9 @@ func runC09Case(e *c09Env, c c09Case) (msg string, steps int, reachedTerminal bo
 	}
 	m := newRef(c.Total)
 	defer func() {
-		if !m.Done {
+		// whatever the comparison said, the bar must not keep the container's Wait
+		// from returning (the model's idea of "done" is not the bar's under a defect)
+		if !m.Done || !(bar.Completed() || bar.Aborted()) {
 			bar.Abort(true)
 		}
 	}()
@@ -251,7 +253,7 @@ func runC09(job common.Job, em *emitter) {
 			readReplay(job.Replay, &rc)
 			e := newC09Env(rc.Replay.Case.Mode)
 			one(e, rc.Replay.Case)
-			e.p.Wait()
+			waitC09(e, acc, rc.Replay.Case)
 			acc.finish(em)
 			continue
 		}
@@ -289,7 +291,7 @@ func runC09(job common.Job, em *emitter) {
 				}
 				rec(0)
 			}
-			e.p.Wait()
+			waitC09(e, acc, c09Case{Mode: "none"})
 			acc.res.Obs["exhaustive_first_letter_chunks"] = 1
 		case "random":
 			for k := 0; k < 300; k++ {
@@ -310,11 +312,21 @@ func runC09(job common.Job, em *emitter) {
 					ops = append(ops, BOp{K: "abort", F: rng.Bool()})
 				}
 				e := newC09Env(mode)
-				one(e, c09Case{Mode: mode, Total: t, Ops: ops})
-				e.p.Wait()
+				cs := c09Case{Mode: mode, Total: t, Ops: ops}
+				one(e, cs)
+				waitC09(e, acc, cs)
 			}
 		}
 		acc.finish(em)
+	}
+}
+
+// waitC09: every bar of the container was driven to a terminal state, so Wait
+// returns; if it does not and the process is certifiably parked, that is
+// reported instead of hanging the worker.
+func waitC09(e *c09Env, acc *chunkAcc, c c09Case) {
+	if sig, _ := callCertified(e.p.Wait); sig != "" {
+		acc.viol(fmt.Sprintf("Progress.Wait never returns after the sequence %v on a bar created with total %d (%s container), although the bar was completed or aborted: certified deadlock (%s)", c.Ops, c.Total, c.Mode, sig), "wait-hangs:"+c.Mode, c)
 	}
 }
 
